@@ -38,6 +38,20 @@ func holders(c *sim.Cluster, idx, term uint64, data string) (int, int) {
 		voters++
 		if e, ok := logEntry(n, idx); ok && e.Term == term && string(e.Data) == data && e.EntryType == raft.OperationEntry {
 			have++
+			continue
+		}
+		// compacted away: the entry is durable if a closed snapshot holds it
+		if len(n.Log.Entries) > 0 && idx <= n.Log.Entries[0].Index {
+			for _, sn := range n.Sn.Snaps {
+				if list, err := sim.DecodeList(sn.Data); err == nil {
+					for _, a := range list {
+						if a.Index == idx && a.Term == term && a.Data == data {
+							have++
+							break
+						}
+					}
+				}
+			}
 		}
 	}
 	return have, voters
